@@ -173,6 +173,15 @@ func takePhoto(f *ach.File) (ph photo) {
 		i := strings.Index(l, ":")
 		ph["text."+l[:i]] = l[i+1:]
 	}
+	// File.validateOpts is not part of the JSON form but steers Create and Validate
+	if o := f.GetValidation(); o != nil {
+		ob, _ := json.Marshal(o)
+		var tree interface{}
+		json.Unmarshal(ob, &tree)
+		flatten("validateOpts", tree, ph)
+	} else {
+		ph["validateOpts"] = "nil"
+	}
 	return
 }
 
@@ -188,6 +197,19 @@ func (s *libSrv) photos() map[string]photo {
 	return out
 }
 
+// ID -> object identity
+func (s *libSrv) storeMap() map[string]string {
+	out := map[string]string{}
+	for _, f := range s.repo.FindAllFiles() {
+		if f != nil {
+			if g, err := s.repo.FindFile(f.ID); err == nil && g != nil {
+				out[f.ID] = fmt.Sprintf("%p", g)
+			}
+		}
+	}
+	return out
+}
+
 func (s *libSrv) ptrOf(sym string) string {
 	f, err := s.repo.FindFile(s.realID(sym))
 	if err != nil || f == nil {
@@ -195,6 +217,8 @@ func (s *libSrv) ptrOf(sym string) string {
 	}
 	return fmt.Sprintf("%p", f)
 }
+
+var numRe = regexp.MustCompile(`^json\.(batches|IATBatches)\[\d+\]\.(batchHeader|IATBatchHeader)\.batchNumber$`)
 
 var idxRe = regexp.MustCompile(`\[\d+\]|_\d+|(\.[BIEV])\d+`)
 
@@ -342,6 +366,7 @@ func (o *librun) history(g *genState, lines []string, steps int) {
 			}
 		}
 		before := s.photos()
+		mapBefore := s.storeMap()
 		target := s.ptrOf(q.id)
 		ngenBefore := len(s.gens)
 		code, _ := s.run(q, true)
@@ -354,6 +379,16 @@ func (o *librun) history(g *genState, lines []string, steps int) {
 		cls := reqClass(q.kind)
 		o.evals++
 		o.dist[q.kind]++
+		if cls == "read" || cls == "create" || cls == "derive" {
+			// these handlers never assign to the map: an ID keeps its object (new IDs may appear)
+			mapAfter := s.storeMap()
+			for id, ptr := range mapBefore {
+				if mapAfter[id] != ptr {
+					o.fail("storelib:"+strings.ToLower(q.kind)+":store-map-changed",
+						fmt.Sprintf("%s %s: ID %s was bound to another object (or dropped) by a request that is modelled to leave the map alone", q.kind, q.id, id), hist)
+				}
+			}
+		}
 		for ptr, ph0 := range before {
 			ph1, still := after[ptr]
 			if !still {
@@ -373,6 +408,18 @@ func (o *librun) history(g *genState, lines []string, steps int) {
 				continue
 			}
 			o.sample(tag, created[ptr], changed, hist)
+			// File.Create replaces a batch number only when it is <= 1 (Offsets.renumber)
+			if cls == "create" || cls == "derive" {
+				for k, v0 := range ph0 {
+					if numRe.MatchString(k) && ph1[k] != v0 && atoi(v0) > 1 {
+						if _, present := ph1[k]; present {
+							o.fail("storelib:"+strings.ToLower(q.kind)+":provided-batch-number-rewritten",
+								fmt.Sprintf("%s %s rewrote batch number %s (%s) to %s: File.Create keeps every number > 1", q.kind, q.id, v0, k, ph1[k]), hist)
+							break
+						}
+					}
+				}
+			}
 			where := "the addressed stored file"
 			if !self {
 				where = "ANOTHER stored file"
